@@ -48,6 +48,8 @@ func vLoadCell(col Column, k vKind, idx uint32) (c vCell) {
 		c.num = math.Float64bits(x)
 	case string:
 		c.str = x
+	case *vRec:
+		c.str = string(x.b)
 	default:
 		vndAssert(false, "Value returned an unexpected dynamic type")
 	}
@@ -79,7 +81,7 @@ func vPutTyped(buf *commit.Buffer, k vKind, op commit.OpType, off uint32, num ui
 		buf.PutFloat64(op, off, math.Float64frombits(num))
 	case vBool:
 		buf.PutBool(off, num&1 == 1)
-	case vString, vEnum, vStringCat:
+	case vString, vEnum, vStringCat, vRecord:
 		buf.PutString(op, off, str)
 	}
 }
